@@ -2,6 +2,7 @@ SPECIFICATION Spec
 CONSTANTS
   Shapes <- MC_Shapes
   OuterPairs <- MC_OuterPairs
+  KindsSel <- MC_KindsSel
 INVARIANT RulesTotal
 INVARIANT RulesConsistent
 INVARIANT MethodLaws
